@@ -86,6 +86,13 @@ struct WMon {
     v6_paths: Vec<usize>,
     c19_off: bool,
     timeout_ms: u64,
+    // ---- classic housekeeping on the wire (C06 / C10) ----
+    /// since when the configured mode has been classic (None: enhanced)
+    classic_since: Option<u64>,
+    /// per path: when the last keepalive left and the window it reported
+    ka_window: HashMap<usize, (u64, i32)>,
+    /// last time an ACK / NAK / SRTLA ACK reached the sender on any path
+    last_feedback: u64,
 }
 
 /// An accepted reload whose application (at the next housekeeping tick) is awaited.
@@ -209,6 +216,22 @@ impl WMon {
                         out.probe("w.keepalive_gap_judged");
                     }
                     self.last_ka.insert(path, w.t);
+                    // In classic mode nothing but ACKs, NAKs and resets moves a window: two
+                    // consecutive keepalives of a link with no feedback in between report the same.
+                    if let Some(info) = crate::mon::refcodec::keepalive_info(&w.offered[0]) {
+                        if let (Some(since), Some((pt, pw))) = (self.classic_since, self.ka_window.get(&path).copied())
+                            && pt > since
+                            && self.last_feedback + 1 < pt
+                        {
+                            out.probe("w.classic_tick_judged");
+                            if info.window != pw {
+                                for m in ["C06.classic_tick", "C10.window"] {
+                                    out.violate(m, "whole_loop", w.t, format!("path {path}: classic mode since {since}, no ACK / NAK since {}, yet the window reported by consecutive keepalives moved {pw} -> {} (real loop)", self.last_feedback, info.window));
+                                }
+                            }
+                        }
+                        self.ka_window.insert(path, (w.t, info.window));
+                    }
                 } else {
                     // REG1 / REG2 on the wire: a (re-)registration is in progress somewhere
                     self.resets.push(w.t);
@@ -256,6 +279,7 @@ impl WMon {
     fn on_deliver_to_sender(&mut self, now: u64, path: usize, bytes: &[u8], out: &mut MonOut) {
         match ptype(bytes) {
             Some(T_REG3) => {
+                self.ka_window.remove(&path);
                 self.registered.insert(path, now);
                 self.heard.insert(path, now);
                 self.any_reg3 = true;
@@ -271,6 +295,9 @@ impl WMon {
             Some(T_REG2) | Some(T_REG_NGP) | None => {}
             Some(t) => {
                 self.heard.insert(path, now);
+                if matches!(t, 0x8002 | 0x8003 | T_SRTLA_ACK) {
+                    self.last_feedback = now;
+                }
                 if !internal(t) && self.client_known_at.is_some_and(|c| c < now) {
                     self.relay_pending.push((bytes.to_vec(), now));
                     out.probe("w.relayable");
@@ -304,6 +331,7 @@ impl WMon {
             _ => {}
         }
         self.dead_since.remove(&path);
+        self.ka_window.remove(&path);
         self.registered.remove(&path);
         self.heard.remove(&path);
         self.last_ka.remove(&path);
@@ -503,6 +531,7 @@ async fn run(plan: &LPlan, want_excerpt: bool) -> RunOutcome {
     let mut env = Env::new(plan);
     let mut mon = WMon::default();
     mon.timeout_ms = plan.cfg.conn_timeout_ms;
+    mon.classic_since = plan.cfg.classic.then_some(plan.time_base_ms);
     mon.active = seam.with(|s| plan.initial_ips().iter().map(|ip| s.path_for_ip(*ip)).collect());
     let client_addr: SocketAddr = "127.0.0.1:40000".parse().unwrap();
     let start_ms = plan.time_base_ms;
@@ -586,6 +615,18 @@ async fn run(plan: &LPlan, want_excerpt: bool) -> RunOutcome {
                             }
                         }
                         Action::Critical { ms } => critical.extend_to(now + ms),
+                        // only mode switches are honoured here: the wire monitors assume the
+                        // liveness timeout and the guard thresholds of the plan
+                        Action::Control { line } if line.contains("set_mode") => {
+                            let _ = srtla_send::control::dispatch(&config, Some(&stats), Some(&critical), line);
+                            stats_c.inc("fault.runtime_config_change");
+                            let classic = config.mode().is_classic();
+                            mon.classic_since = match (classic, mon.classic_since) {
+                                (true, None) => Some(now),
+                                (true, s) => s,
+                                (false, _) => None,
+                            };
+                        }
                         Action::Reload { text } => {
                             match text {
                                 Some(t) => {
